@@ -92,7 +92,23 @@ func (c *Ctx) Sample(v any) {
 }
 
 func (c *Ctx) Violate(v Violation) {
-	if len(c.Sum.Violations) < 50 {
+	if v.KnownFinding != "" {
+		// one representative per known finding, never crowding out new violations
+		for _, o := range c.Sum.Violations {
+			if o.KnownFinding == v.KnownFinding {
+				return
+			}
+		}
+		c.Sum.Violations = append(c.Sum.Violations, v)
+		return
+	}
+	n := 0
+	for _, o := range c.Sum.Violations {
+		if o.KnownFinding == "" {
+			n++
+		}
+	}
+	if n < 50 {
 		c.Sum.Violations = append(c.Sum.Violations, v)
 	}
 }
